@@ -320,7 +320,7 @@ def run_program(fst, pi, src, tier, res, neighbourhood):
                     continue
                 res.nontriv(dtext, mode)
                 res.outcomes['fragment-ok'] += 1
-        if neighbourhood and hasattr(node, 'lineno') and not is_stmtlike and '\n' not in text:
+        if neighbourhood and (hasattr(node, 'lineno') or isinstance(node, (ast.withitem, ast.comprehension))) and not is_stmtlike and '\n' not in text:
             token_neighbourhood(fst, text, node, parent, modes[0], cidp + ps, rep, res, tier)
     list_fragments(fst, S, tree, src, cidp, rep, res)
 
@@ -413,6 +413,10 @@ def list_fragments(fst, S, tree, src, cidp, rep, res):
 
 
 REPL = [')', '(', ',', ':', '=', '*', '**', 'as', 'if', 'for', '\n', '#', ';']
+# two-sided injections that close whatever synthetic opening delimiter a parse wrapper may have put in front of the fragment and
+# open a new one for the wrapper's closing delimiter: balanced for a tokenizer that sees wrapper + fragment, not valid as a fragment
+ESCAPES = [')(', '][', '}{', ') (', '] [', ').x(', '].x[', ')()(', ']()[', ') as (', '): pass\nwith (', ') if (', '], [', '), (', ')=(',
+           '\\', '\\b']
 
 
 def embed_valid(text, mode):
@@ -429,6 +433,9 @@ def embed_valid(text, mode):
                   ('from . import \\\n{}', lambda m: _solo(m.body[0].names) if len(m.body) == 1 else None, 1),
                   ('import \\\n{}', lambda m: _solo(m.body[0].names) if len(m.body) == 1 else None, 1)],
         'withitem': [('with (\n{}\n): pass', lambda m: _solo(m.body[0].items), 1)],
+        'expr_slice': [('x[\n{}\n]', lambda m: m.body[0].value.slice, 1)],
+        'type_param': [('type X[\n{}\n] = _', lambda m: _solo(m.body[0].type_params), 1)],
+        'comprehension': [('[_ \n{}\n]', lambda m: _solo(m.body[0].value.generators), 1)],
     }.get(mode)
     if tmpl is None:
         return 'unsupported'
@@ -451,12 +458,21 @@ def embed_valid(text, mode):
         # the embedded node's token extent must be exactly the fragment (rejects `a) + (b`)
         FS = X.Src(full)
         pre = t.index('{}')
-        if hasattr(node, 'lineno'):
+        if isinstance(node, ast.comprehension):
+            s = full.rfind('for', 0, FS.span(node.target)[0])
+            s = full.rfind('async', 0, s) if node.is_async else s
+            e = FS.expand(*FS.span((node.ifs or [node.iter])[-1]))[1]
+        elif hasattr(node, 'lineno'):
             s, e = FS.span(node)
         else:  # withitem
             s = FS.span(node.context_expr)[0]
             s = FS.expand(*FS.span(node.context_expr))[0]
             e = FS.expand(*FS.span(node.optional_vars or node.context_expr))[1]
+            if node.optional_vars is None:  # 'with (a):' - the wrapper's parentheses became grouping parentheses of the lone expression:
+                s, e = FS.span(node.context_expr)  # take the outermost grouping parentheses that still lie inside the fragment
+                for ps, pe in FS.enclosing(s, e):
+                    if ps >= pre + first and pe <= pre + last:
+                        s, e = ps, pe
         lo, hi = pre + first, pre + last
         if isinstance(node, (ast.Tuple, ast.MatchSequence)) and (s, e) != (lo, hi):
             # an undelimited sequence inherits the wrapper's delimiters
@@ -502,7 +518,7 @@ def _solo_kw(c):
 
 
 def token_neighbourhood(fst, text, node, parent, mode, cidp, rep, res, tier):
-    if mode not in ('expr', 'pattern', 'arg', 'keyword', 'alias', 'withitem'):
+    if mode not in ('expr', 'pattern', 'arg', 'keyword', 'alias', 'withitem', 'expr_slice', 'type_param', 'comprehension'):
         return
     try:
         S = X.Src(text)
@@ -518,6 +534,15 @@ def token_neighbourhood(fst, text, node, parent, mode, cidp, rep, res, tier):
         for r in REPL:
             variants.add(text[:t[0]] + r + text[t[1]:])         # replace
             variants.add(text[:t[1]] + ' ' + r + text[t[1]:])   # insert after
+    for i, t in enumerate(S.toks):  # wrapper escapes after every token (and in place of every separator-like token)
+        for r in ESCAPES:
+            variants.add(text[:t[1]] + r + text[t[1]:])
+            if t[2] in (',', '=', ':', '.', 'as', 'in', '|'):
+                variants.add(text[:t[0]] + r + text[t[1]:])
+    for r in ESCAPES + [', ', ' = ', ': ']:  # something complete in front of / behind the whole fragment
+        variants.add('x' + r + text)
+        variants.add(text + r + 'x')
+    variants = {v for v in variants if not v.rstrip(' ').endswith('\\')}  # a backslash as the very last character continues into whatever follows the fragment: not judged
     variants.discard(text)
     for v in sorted(variants):
         emb = embed_valid(v, mode)
